@@ -120,9 +120,18 @@ def split_freq(env, g, fmin, fmax):
     env.close(hs_a * hs_a, hs_b * hs_b, "stats(fmin,fmax).hs == hs of the explicit split", rel=1e-12)
 
 
-@harness(P, quick=[dict(g="G1", dmin=90.0, dmax=180.0), dict(g="G1", dmin=None, dmax=100.0), dict(g="U4", dmin=110.0, dmax=None)], thorough=[dict(g="G2", dmin=5.0, dmax=125.0), dict(g="D6", dmin=60.0, dmax=250.0)])
-def split_dir(env, g, dmin, dmax):
+@harness(P, quick=[dict(g="G1", dmin=90.0, dmax=180.0), dict(g="G1", dmin=None, dmax=100.0), dict(g="U4", dmin=110.0, dmax=None)]
+         + [dict(g="G1", dmin=30.0, dmax=200.0, order=o) for o in ("descending", "rotated")] + [dict(g="G1", dmin=None, dmax=100.0, order="descending"), dict(g="G1", dmin=100.0, dmax=None, order="descending")],
+         thorough=[dict(g="G2", dmin=5.0, dmax=125.0), dict(g="D6", dmin=60.0, dmax=250.0)] + [dict(g="D6", dmin=60.0, dmax=250.0, order=o) for o in ("descending", "rotated")])
+def split_dir(env, g, dmin, dmax, order="ascending"):
+    """split(dmin, dmax) keeps exactly the directions inside the band, in increasing order, whatever the order the
+    direction axis is stored in (ascending, strictly descending, or rotated like the WW3 axis)."""
     da, vals = mk_spec(env, g)
+    if order != "ascending":
+        nd_ = da.sizes["dir"]
+        idx = list(range(nd_))[::-1] if order == "descending" else [(j + 2) % nd_ for j in range(nd_)][::-1]
+        da = da.isel(dir=idx)
+        vals = vals[:, idx]
     f, d = da.freq.values, da.dir.values
     with env.stubs(ST.chunk_identity):
         out = da.spec.split(dmin=dmin, dmax=dmax).transpose("freq", "dir")
